@@ -12,6 +12,9 @@ TEMPLATES = [
     ('start: a | b\na{P1}: X X X\nb{P2}: "xxx"\nX: "x"', ['xxx'], ['a', 'b']),               # priority counted once per rule application
     ('start: a a\na{P1}: X | X X\nX: "x"', ['xxx'], ['a']),
     ('start: item+\nitem: a | b\na{P1}: X X\nb{P2}: X\nX: "x"', ['xxx', 'xxxx'], ['a', 'b']),
+    # alternatives with [..] get their own copy of the rule's options at compile time: every copy carries (and inverts) the priority
+    ('start: a | b\na{P1}: X [Y]\nb{P2}: X | X Y\nX: "x"\nY: "y"', ['x', 'xy'], ['a', 'b']),
+    ('start: a | b\na{P1}: [Y] X | X [Y] [Y]\nb{P2}: X\nX: "x"\nY: "y"', ['x'], ['a', 'b']),
 ]
 PRS = [-1, 0, 1, 2] if tier == 'quick' else [-2, -1, 0, 1, 2]
 
@@ -37,7 +40,8 @@ def run():
             for lexer in ('basic', 'dynamic'):
                 for text in inputs:
                     try:
-                        ex = Lark(g, parser='earley', lexer=lexer, ambiguity='explicit').parse(text)
+                        # derivations are enumerated without placeholders (CollapseAmbiguities cannot combine None children); totals do not depend on them
+                        ex = Lark(g, parser='earley', lexer=lexer, ambiguity='explicit', maybe_placeholders=False).parse(text)
                         ders = CollapseAmbiguities().transform(ex)
                     except Exception as e:
                         continue
